@@ -500,6 +500,38 @@ def K_rvalue_operands(rv):
 
 
 
+def uturn_kernels(F, R):
+    """The U-turn criterion is evaluated by the fused dot-product kernels: they must compute the plain sums (decided by the C17 kernel rules)."""
+    from . import c17
+    impls = F.trait_method_impls("Hamiltonian", "is_turning")
+    cg = F.callgraph()
+    reach = cg.reachable([b.path for b in impls]) if impls else set()
+    # a kernel is run by `arch.dispatch(Kernel { .. })`: reached where its operand struct is built
+    by_adt = {strip_generics(k.parent.get("self_adt") or ""): k for k in c17.kernels(F)}
+    ks = []
+    for p in sorted(reach):
+        rb = F.bodies.get(p)
+        if rb is None:
+            continue
+        for blk in rb.blocks:
+            for st in blk["stmts"]:
+                if st["k"] == "assign" and st["rv"]["k"] == "agg" and st["rv"].get("ak") == "adt":
+                    k = by_adt.get(strip_generics(st["rv"]["adt"]))
+                    if k is not None and k not in ks:
+                        ks.append(k)
+    if not ks:
+        R.missing("C03-R8", "SIMD kernels reachable from Hamiltonian::is_turning")
+        return
+
+    def go(sub):
+        for k in ks:
+            c17.check_kernel(F, sub, k)
+    names = ", ".join(sorted((k.parent.get("self_adt") or k.path).split("::")[-1] for k in ks))
+    K.borrow_rule(R, go, "C03-R8", "the dot-product kernels reachable from is_turning (%s) compute the element-by-element sums: lanes, tails and accumulators per C17-K1..K6, "
+                  "so `doubling stops exactly when the criterion holds` is about the criterion and not about a mangled sum" % names[:300])
+    R.floor("C03-R8", 4)
+
+
 def run(F, R, config="all"):
     r1(F, R)
     r2(F, R)
@@ -508,6 +540,7 @@ def run(F, R, config="all"):
     r5(F, R)
     r6(F, R)
     snapshot(F, R)
+    uturn_kernels(F, R)
     from . import c01, c02
     c01.r7(F, R)
     # the next trajectory starts from the returned draw only if stale whitened coordinates are refreshed:
